@@ -575,4 +575,12 @@ def R8_yens_candidate(ctx):
     spur_route_rule(ctx, "C01.R8")
 
 
-RULES = [R1_tree_update, R2_direction, R3_backtrack, R4_edge_oriented, R5_reorient, R6_loop_test, R7_single_via_acceptance, R8_yens_candidate]
+def R9_ksp_endpoints(ctx):
+    """C01.R9 = C13.R4: the k-shortest-paths algorithms search between the endpoints they were given (KspQuery carries source
+    and target unchanged; only k may come from the query) — the edge-oriented wrapper and Yen's spur searches compose their
+    routes around exactly those endpoints"""
+    from props.C13 import R4_criteria
+    R4_criteria(ctx)
+
+
+RULES = [R1_tree_update, R2_direction, R3_backtrack, R4_edge_oriented, R5_reorient, R6_loop_test, R7_single_via_acceptance, R8_yens_candidate, R9_ksp_endpoints]
